@@ -15,7 +15,7 @@ ASSUMPTIONS = ['C05_noninterference uses the standard-library axiom functional_e
                'the concrete curve arithmetic (Model/Secp256k1.v) is assumed, not proved, to be a group (no elliptic-curve library installed)']
 RULE = ('spending transactions 1..4 in / 0..4 out; templates P2PK, P2PKH, bare m-of-n, P2SH-wrapped m-of-n; hash types '
         '{ALL,NONE,SINGLE}x{,ANYONECANPAY} plus undefined bytes (0, 4, 0x41, 0x7f, 0xff); every signing position; followed by one '
-        'edit from the catalogue (each field of each input/output, insertion, removal, reordering, witness, foreign key) or none. '
+        'edit from the catalogue; engine 502: signer plans for the same templates (which listed or foreign key signs which slot: honest ordered subsets, one signer repeated in every slot, right keys in the wrong order, a foreign signature, too few / too many signatures), accepted iff the last m signatures are by distinct listed keys in listing order (surplus leading signatures are never examined); followed by one edit from the catalogue (each field of each input/output, insertion, removal, reordering, witness, foreign key) or none. '
         'non-trivial = all; distinct by case text')
 IN_COQ_SAMPLE = 0     # elliptic-curve arithmetic under vm_compute is too slow (measured: 25 s per scalar multiplication)
 
@@ -28,6 +28,8 @@ def corpus():
 
 
 def classify(e, a, iv):
+    if e == 502:
+        return 't%d-plan-%s' % (a[0], 'honest' if a[8][1] == sorted(set(a[8][1])) and len(a[8][1]) == a[2] and all(k < a[8][0] for k in a[8][1]) else 'bad')
     return 't%d-edit%s-%s' % (a[0], a[9] if len(a) > 9 else '?', 'wk' if a[8] else 'ok')
 
 
@@ -135,4 +137,37 @@ def generate(rng, tier, boost):
             kind = 'none'; e = apply_edit(rng, t, idx, 'none')
         t2, idx2 = e
         cases.append((501, [template, secrets, m, t, idx, hts, t2, idx2, wrongkey, EDITS.index(kind)]))
+    # signer plans (engine 502): which key signs which slot
+    for c in range(n // 2):
+        template = c % 4
+        t = rand_spend(rng)
+        idx = rng.randrange(len(t[1]))
+        if template in (2, 3):
+            nk = rng.choice([1, 2, 3, 3, 4]); m = rng.randrange(1, nk + 1)
+        else:
+            nk, m = 1, 1
+        secrets = [secret(rng) for _ in range(nk + 1)]        # the last one is foreign
+        r = rng.random()
+        honest = sorted(rng.sample(range(nk), m))
+        if r < 0.4:
+            plan = honest
+        elif r < 0.55:
+            plan = [rng.randrange(nk)] * m                         # one signer fills every slot
+        elif r < 0.7:
+            plan = list(reversed(honest))                          # right keys, wrong order
+        elif r < 0.8:
+            plan = list(honest); plan[rng.randrange(m)] = nk       # one foreign signature
+        elif r < 0.9:
+            plan = [rng.randrange(nk + 1) for _ in range(rng.choice([max(m - 1, 0), m, m, m + 1]))]
+        else:
+            plan = [rng.randrange(nk) for _ in range(m)]
+        if template in (0, 1):
+            plan = [0] if rng.random() < 0.7 else [1]
+        hts = [rng.choice(HTS) for _ in plan]
+        kind = rng.choice(EDITS) if rng.random() < 0.3 else 'none'
+        e = apply_edit(rng, t, idx, kind)
+        if e is None:
+            kind = 'none'; e = apply_edit(rng, t, idx, 'none')
+        t2, idx2 = e
+        cases.append((502, [template, secrets, m, t, idx, hts, t2, idx2, [nk, plan], EDITS.index(kind)]))
     return cases
